@@ -12,8 +12,14 @@
 (*                      inputs, mapped arrays of depth 1 and 2, a rank-2 mapped array whole or reduced), listed   *)
 (*                      in the MapSpec in EVERY order (XarrayLabels!LawSourceOrder is checked on them and every    *)
 (*                      order is exported, so the code is run on every order).                                     *)
+(*   Mode = "scoped":   members of the universe below under the RENAMINGS that scopes produce (XarrayLabels section 6):  *)
+(*                      all names / the root inputs / the outputs moved into one scope, the root inputs moved into      *)
+(*                      different scopes with one common last component, one input alone.  LawNaming: the analysis,    *)
+(*                      denotation and coordinates of the renamed case are the renamed ones of its base case; each is   *)
+(*                      exported like any other case, so the code is run with the dotted names.                          *)
 EXTENDS XarrayLabels, MC_MapDenote, IOUtils
-CONSTANTS MinSize, Mode
+CONSTANTS MinSize, Mode,
+          Thin, Phase      \* Mode "scoped": of all <<universe case, kind of renaming>> pairs, in one fixed enumeration, every Thin-th from Phase
 
 (* the C01 universe, enumerated directly per pair of input arrangements (MC_MapDenote filters a much larger product) *)
 XASpecs  == {a \in ASpecs : Len(a) <= 2}
@@ -80,11 +86,41 @@ SrcShard    == LET q == SetToSeq(SrcSeqs) IN {q[k] : k \in {n \in DOMAIN q : n %
 SrcUniverse == UNION {{[desc |-> SrcDesc(s), inputs |-> SrcInputs(s, sz)] : sz \in [SrcAxes(s) -> MinSize..MaxSize]} : s \in SrcShard}
 SOrder == <<"a", "b", "c", "d", "e", "g", "p", "q", "t", "u", "v", "w", "x", "y">>   \* all names of the family, alphabetically
 
+---------------------------------------------------------------------------
+(* Scoped names.  A KIND of renaming says which names of a universe case get which dotted name:                    *)
+(*     "all"      every parameter and output into scope sc         (Pipeline(..., scope="sc"))                      *)
+(*     "inputs"   the root inputs into scope sc                    (update_scope("sc", inputs="*")): >= 2 root      *)
+(*                inputs - mapped arrays of equal length among them - share the prefix "sc."                       *)
+(*     "outputs"  the outputs into scope sc                        (update_scope("sc", outputs="*"))                *)
+(*     "leaf"     the root inputs into DIFFERENT scopes with one common last component: p.v, q.v, r.v, t.v          *)
+(*     "one"      input a alone into scope sc: one name of a zipped pair is dotted, the other is not, and the       *)
+(*                alphabetical order of the levels of their index changes ("a:b" becomes "b:sc.a")                  *)
+(* Names that a case does not have are not renamed; a pair whose renaming is empty is not a member.                 *)
+ScopeKinds == <<"all", "inputs", "outputs", "leaf", "one">>
+LeafNames  == [a |-> "p.v", b |-> "q.v", c |-> "r.v", s |-> "t.v"]
+RenamingOf(kind, d) ==
+    CASE kind = "all"     -> ScopeRenaming("sc", NamesOf(d))
+      [] kind = "inputs"  -> ScopeRenaming("sc", RootNames(d))
+      [] kind = "outputs" -> ScopeRenaming("sc", AllOutputs(d))
+      [] kind = "leaf"    -> [n \in RootNames(d) \cap DOMAIN LeafNames |-> LeafNames[n]]
+      [] kind = "one"     -> ScopeRenaming("sc", NamesOf(d) \cap {"a"})
+(* all names of a renamed case, alphabetically (TLC cannot compare strings; the harness asserts that it IS sorted):   *)
+(* a common prefix keeps the order of UOrder, "sc." sorts after "s" and before "w"                                    *)
+ScopedOrder(kind, r, d) == IF kind = "one" THEN SelectSeq(<<"b", "c", "s", "sc.a", "w", "y", "y2">>, LAMBDA n : n \in RenSet(r, NamesOf(d)))
+                           ELSE RenSeq(r, SelectSeq(UOrder, LAMBDA n : n \in NamesOf(d)))
+ScopedPairs == LET q == SetToSeq(XUniverse)  nk == Len(ScopeKinds)
+               IN  UNION {{<<q[k], ScopeKinds[j]>> : j \in {jj \in 1..nk : ((k - 1) * nk + (jj - 1)) % Thin = Phase}} : k \in DOMAIN q}
+ScopedCase(u, kind) == LET r == RenamingOf(kind, u.desc)
+                       IN  [id |-> 0, desc |-> Renamed(u.desc, r), inputs |-> RenPairs(r, u.inputs), order |-> ScopedOrder(kind, r, u.desc),
+                            base |-> u, ren |-> r, kind |-> kind]
+ScopedUniverse == {ScopedCase(p[1], p[2]) : p \in {pp \in ScopedPairs : DOMAIN RenamingOf(pp[2], pp[1].desc) # {}}}
+
 FileCases == ndJsonDeserialize(IOEnv.CASE_FILE)
 Cases == CASE Mode = "universe" -> {[id |-> 0, desc |-> u.desc, inputs |-> u.inputs, order |-> UOrder] : u \in XUniverse}
            [] Mode = "file"     -> {FileCases[n] : n \in DOMAIN FileCases}
            [] Mode = "same"     -> {[id |-> 0, same |-> SameUniverse]}
            [] Mode = "sources"  -> {[id |-> 0, desc |-> u.desc, inputs |-> u.inputs, order |-> SOrder] : u \in SrcUniverse}
+           [] Mode = "scoped"   -> ScopedUniverse
 
 (* `lab` holds what is computed once per case (an operator over `case` is re-evaluated at every use):             *)
 (* whether the case is in scope, its denotation and the static analysis of its description                        *)
@@ -126,6 +162,12 @@ LawSel         == Sup => \A li \in Switches : LawSelect(An, Dn, An.outs, li)
 LawSelExact    == \A li \in Switches : LawSelectExact(An, Dn, An.outs, li)
 LawOneIndex    == \A S \in Selections : \A li \in Switches : OneIndexPerAxes(An, S, li)
 LawDistinct    == \A x \in An.leaves : Cardinality(Leaves(Dn[x], Len(An.axes[x]))) = Prod(ShapeOf(Dn[x], Len(An.axes[x])))
+(* scoped mode only: names are opaque - the renamed case is analysed, denoted and labelled like its base case, renamed; *)
+(* distinct names stay distinct (IsRenaming) and every level of every coordinate holds ITS OWN input's value           *)
+LawNaming      == LET b == case.base  A0 == Analysis(b.desc) IN
+                  /\ LawRenamedAnalysis(b.desc, b.inputs, case.ren, An, Dn)
+                  /\ \A S \in {A0.outs} \cup {{o} : o \in A0.outs} : \A li \in Switches : LawRenamedCoords(b.desc, case.ren, An, S, li)
+                  /\ \A k1, k2 \in DOMAIN Ord : k1 # k2 => Ord[k1] # Ord[k2]
 
 ---------------------------------------------------------------------------
 (* export: one selection by value per candidate coordinate (its last entry), with what every variable then holds *)
@@ -143,6 +185,7 @@ ViewOf(S, li) ==
      picks |-> IF S = An.outs THEN {PickOf(S, li, c) : c \in CandidateCoords(An, S, li, Ord)} ELSE {}]
 EmitLabels == PrintT(<<"CASE", ToJson(IF Sup
            THEN [id |-> case.id, supported |-> TRUE, desc |-> D, inputs |-> case.inputs, order |-> Ord,
+                 renaming |-> IF Mode = "scoped" THEN case.kind ELSE "",
                  den |-> [n \in An.outs \cup An.leaves |-> Dn[n]],
                  views |-> {ViewOf(S, li) : S \in Selections, li \in Switches}]
            ELSE [id |-> case.id, supported |-> FALSE])>>)
